@@ -421,7 +421,7 @@ func c20Exec(dir, cacheDir string, run c20Run, cross bool) c20Output {
 	args = append(args, "-f", "json", "./...")
 	cmd := exec.Command(os.Args[0], args...)
 	cmd.Dir = dir
-	env := append(c20GoEnv(), "VERIF_C20_CHILD=1", "STATICCHECK_CACHE="+cacheDir, "GOWORK=off", "GOMAXPROCS=2")
+	env := append(c20GoEnv(), "VERIF_C20_CHILD=1", "STATICCHECK_CACHE="+cacheDir, "GOWORK=off")
 	if cross {
 		env = append(env, "VERIF_C20_CROSS=1")
 	}
